@@ -27,7 +27,8 @@ RULE = ("exhaustive product method {'m','a.b','',None,5} x params {[],[1],(),(1,
         "{None,False,True} x config {default, 1.0, class translation off} through dump and loads(dumps()) (quick: all id x version x "
         "kind cases + a seeded sample of the rest; thorough: all), Fault.dump/response over own id x forced id x version, "
         "off-list versions, random nested JSON params, random sequences of calls (id uniqueness). "
-        "Non-trivial: a message was produced or an invalid combination was rejected (not the trivial default call). Distinct by canonical hash.")
+        "Non-trivial: a message was produced or an invalid combination was rejected (not the trivial default call). Distinct by canonical hash."
+        " Added after the seeded rounds: '__jsonclass__'-looking plain data under configurations with class translation off; integer versions in the oracle's domain; `reentrant` stream (oracle only): messages built from inside the serialisation hook of a bean in another message's params.")
 EXHAUSTIVE = "the finite method/params/id/version/flag/config product described in `rule` (thorough tier; quick samples it)"
 TRUSTED = ["modelled, not verified: CPython truthiness, isinstance, float() on the version, str(float) for 1.0/2.0/halves",
            "uuid.uuid4 modelled as an injective, never-empty supply; the harness counts uuid4 calls through a proxy installed "
